@@ -74,8 +74,8 @@ import numpy as np
 from sympy import ZZ, factorint, primefactors, primitive_root
 from sympy.polys.galoistools import gf_gcdex
 
-GO_FILE = '/repo/finitefield/conway/cpimport.go'
-OUT_DIR = '/verif/lean/Algobra/Certs'
+GO_FILE = os.path.join(os.environ.get('VERIF_REPO', '/repo'), 'finitefield', 'conway', 'cpimport.go')
+OUT_DIR = os.path.join(os.path.dirname(os.path.dirname(os.path.abspath(__file__))), 'lean', 'Algobra', 'Certs')
 STRIDES = 32
 BIG_MODULES = 32   # thorough tier: number of Certs/BigNN.lean modules
 CHUNK = 60000
@@ -347,6 +347,7 @@ def gen_default(ents):
     with open(os.path.join(OUT_DIR, 'Data.lean'), 'w') as fh:
         fh.write('-- GENERATED by /verif/tools/gen_certs.py from finitefield/conway/cpimport.go — do not edit\n')
         fh.write('namespace Algobra.C04Check.Data\n\n')
+        fh.write('/-- number of entries of the database the certificates were generated for -/\ndef dbCount : Nat := %d\n\n' % len(ents))
         fh.write(lean_chunks('tab', tab_lines))
         fh.write('\n')
         fh.write(lean_chunks('cert', cert_lines))
